@@ -348,7 +348,12 @@ func (v *visitor) FunctionNode(node *ast.FunctionNode) reflect.Type {
 				fn.Out(0).Kind() == reflect.Interface {
 				rest := fn.In(fn.NumIn() - 1) // function has only one param for functions and two for methods
 				if rest.Kind() == reflect.Slice && rest.Elem().Kind() == reflect.Interface {
-					node.Fast = true
+					// The VM calls a fast function as a func(...interface{}) interface{} value:
+					// it has to be exactly that, not a named type of this shape and not
+					// a function over another interface type.
+					if rest == fastFuncType.In(0) && fn.Out(0) == fastFuncType.Out(0) && (f.Method || fn == fastFuncType) {
+						node.Fast = true
+					}
 				}
 			}
 
